@@ -1,5 +1,5 @@
 (* C14 -- part 5: after Imaging.apply_mask the blurring footprint of every unmasked pixel lies inside the frame. *)
-From Coq Require Import ZArith List Bool Lia.
+From Coq Require Import ZArith List Bool Lia Reals.
 From PAV Require Import Base.Res Base.Check Base.NumOps Model.C14 Proofs.C14 Proofs.C14b Proofs.C14c Proofs.C14d.
 Import ListNotations.
 Local Open Scope Z_scope.
@@ -95,4 +95,67 @@ Proof.
     cbn [bind]. eexists. eexists. split; [reflexivity|]. unfold resized_arr_spec. cbn [fst snd negb Z.eqb].
     apply padded_footprint_inside; assumption.
   - eexists. eexists. split; [reflexivity|]. cbn [fst snd]. now apply (not_raises_footprint_inside m H W).
+Qed.
+
+(* PSF padding (odd kernel) is a parity-preserving resize: pixel (i, j) moves to (i + (k0-1)/2, j + (k1-1)/2) and keeps
+   its mask entry, its value and its scaled coordinate *)
+Lemma psf_padding_keeps_coordinates {B} (zero : B) (arr : arr2d B) H W k0 k1 mpv (g : rgeom) :
+  rectb H W (fst arr) = true -> rectb H W (snd arr) = true -> 0 < H ->
+  Z.odd k0 = true -> Z.odd k1 = true -> 1 <= k0 -> 1 <= k1 ->
+  exists out, padded_before_convolution_from zero arr (k0, k1) mpv = Ok out /\
+    forall i j, 0 <= i < H -> 0 <= j < W ->
+      let i' := i + (k0 - 1) / 2 in let j' := j + (k1 - 1) / 2 in
+      zget2 true (snd out) i' j' = zget2 true (snd arr) i j /\
+      zget2 zero (fst out) i' j' = zget2 zero (fst (normal_arr zero arr)) i j /\
+      @pixel_centre_code ROps (H + (k0 - 1)) (W + (k1 - 1)) g i' j' = @pixel_centre_code ROps H W g i j.
+Proof.
+  intros HA HM HP O0 O1 Hk0 Hk1. pose proof (rectb_W_nonneg _ _ _ HM HP) as HW.
+  assert (C0 : k0 - 1 = 2 * ((k0 - 1) / 2)) by (rewrite Z.odd_spec in O0; destruct O0 as [q ->]; zdiv).
+  assert (C1 : k1 - 1 = 2 * ((k1 - 1) / 2)) by (rewrite Z.odd_spec in O1; destruct O1 as [q ->]; zdiv).
+  set (c0 := (k0 - 1) / 2) in *. set (c1 := (k1 - 1) / 2) in *.
+  assert (E0 : Z.even (H + (k0 - 1) - H) = true) by (rewrite Z.even_spec; exists c0; lia).
+  assert (E1 : Z.even (W + (k1 - 1) - W) = true) by (rewrite Z.even_spec; exists c1; lia).
+  destruct (parity_preserving_resize_keeps_coordinates zero arr H W (H + (k0 - 1)) (W + (k1 - 1)) mpv g HA HM HP
+              ltac:(lia) ltac:(lia) E0 E1) as (out & EQ & _ & _ & HK).
+  exists out. split.
+  - pose proof (Entries_self true _ _ _ HM HP) as XM. destruct (Entries_shape _ _ _ _ XM HP) as [S0 S1].
+    unfold padded_before_convolution_from. rewrite S0, S1. exact EQ.
+  - intros i j Hi Hj. cbv zeta.
+    assert (D0 : H / 2 - (H + (k0 - 1)) / 2 = - c0) by zdiv. assert (D1 : W / 2 - (W + (k1 - 1)) / 2 = - c1) by zdiv.
+    specialize (HK (i + c0) (j + c1) ltac:(lia) ltac:(lia)). cbv zeta in HK. rewrite D0, D1 in HK.
+    replace (i + c0 + - c0) with i in HK by lia. replace (j + c1 + - c1) with j in HK by lia.
+    apply HK; lia.
+Qed.
+
+(* Imaging.apply_mask pads (odd PSF, blurring region leaving the frame); AbstractDataset.trimmed_after_convolution_from
+   for the same kernel then gives back the masked data and noise map on the original mask *)
+Lemma apply_mask_then_trim_id {B} (zero : B) (data noise : list (list B)) (m : list (list bool)) H W k :
+  rectb H W data = true -> rectb H W noise = true -> rectb H W m = true -> 0 < H -> odd_kernel k = true ->
+  blurring_raises m k = true ->
+  bind (imaging_apply_mask zero data noise m (Some k)) (fun dn => dataset_trimmed zero dn k)
+  = Ok ((zip_mask zero data m, m), (zip_mask zero noise m, m)).
+Proof.
+  intros HD HN HM HP HK EB. destruct k as [k0 k1]. unfold odd_kernel in HK. cbn [fst snd] in HK. boolp.
+  pose proof (rectb_W_nonneg _ _ _ HM HP) as HW.
+  pose proof (Entries_self zero _ _ _ HD HP) as XD. pose proof (Entries_self zero _ _ _ HN HP) as XN.
+  pose proof (Entries_self true _ _ _ HM HP) as XM.
+  destruct (mask_apply_entries zero data m H W _ _ XD XM) as (d & ED & YD).
+  destruct (mask_apply_entries zero noise m H W _ _ XN XM) as (n & EN & YN).
+  assert (ZD : d = zip_mask zero data m) by (apply (Entries_ext zero _ _ _ _ _ _ YD (zip_mask_entries zero _ _ _ _ _ _ XD XM)); reflexivity).
+  assert (ZN : n = zip_mask zero noise m) by (apply (Entries_ext zero _ _ _ _ _ _ YN (zip_mask_entries zero _ _ _ _ _ _ XN XM)); reflexivity).
+  assert (PD : properA H W (d, m)) by (split; [destruct YD as (_ & _ & RD & _); apply Rect_rectb; [lia | lia | exact RD] | split; assumption]).
+  assert (PN : properA H W (n, m)) by (split; [destruct YN as (_ & _ & RN & _); apply Rect_rectb; [lia | lia | exact RN] | split; assumption]).
+  pose proof (pad_then_trim_id zero (d, m) H W k0 k1 1 PD ltac:(assumption) ltac:(assumption) ltac:(lia) ltac:(lia)) as TD.
+  pose proof (pad_then_trim_id zero (n, m) H W k0 k1 1 PN ltac:(assumption) ltac:(assumption) ltac:(lia) ltac:(lia)) as TN.
+  unfold imaging_apply_mask. rewrite ED, EN. cbn [bind]. rewrite EB.
+  destruct (padded_before_convolution_from zero (d, m) (k0, k1) 1) as [pd|e]; [|discriminate TD].
+  destruct (padded_before_convolution_from zero (n, m) (k0, k1) 1) as [pn|e]; [|discriminate TN].
+  cbn [bind] in *. unfold dataset_trimmed. cbn [fst snd]. rewrite TD, TN. cbn [bind]. unfold normal_arr. cbn [fst snd].
+  assert (MD : zip_mask zero d m = d).
+  { apply (Entries_ext zero _ _ _ _ _ _ (zip_mask_entries zero _ _ _ _ _ _ YD XM) YD). intros i j _ _. unfold masked_fun.
+    destruct (zget2 true m i j); reflexivity. }
+  assert (MN : zip_mask zero n m = n).
+  { apply (Entries_ext zero _ _ _ _ _ _ (zip_mask_entries zero _ _ _ _ _ _ YN XM) YN). intros i j _ _. unfold masked_fun.
+    destruct (zget2 true m i j); reflexivity. }
+  rewrite MD, MN, ZD, ZN. reflexivity.
 Qed.
